@@ -332,6 +332,7 @@ func main() {
 	writeIfChanged(filepath.Join(out, "Facts.lean"), genFacts(&F))
 	writeIfChanged(filepath.Join(out, "Flows.lean"), genFlows(repo))
 	writeIfChanged(filepath.Join(out, "Alias.lean"), genAlias(repo))
+	writeIfChanged(filepath.Join(out, "Proto.lean"), genProto(repo))
 	js, _ := json.MarshalIndent(&F, "", " ")
 	writeIfChanged(filepath.Join(out, "facts.json"), string(js)+"\n")
 }
